@@ -32,6 +32,8 @@ ghostvar gl int
 ghostvar ga seq
 ghostvar gm int
 ghostvar gov int
+ghostvar gfisg bool
+ghostvar gfiv int
 ghostvar gu0 int
 ghostvar gi5 int
 ghostvar gi1 int
@@ -518,6 +520,12 @@ func (p *pp) fmt0x64(v uint64, leading0x bool)
 
 func (p *pp) fmtInteger(v uint64, isSigned bool, verb rune)
   public verb
+  -- which integer is rendered, and whether as a signed one (the safe integer methods of the SafePrinter are
+  -- held to this: SafeUint must not be rendered as a signed number)
+  modifies p, gfisg, gfiv
+  ghost gfisg = isSigned at entry
+  ghost gfiv = v at entry
+  ensures-always [C05,C09] gfisg == isSigned && gfiv == v
   requires PI(p) && WP(p.fmt)
   requires (verb != 118 && verb != 100 && verb != 98 && verb != 111 && verb != 79 && verb != 120 && verb != 88 && verb != 99 && verb != 113 && verb != 85) ==> B(p)
   ensures PI(p) && Same(p) && WP(p.fmt)
@@ -962,11 +970,15 @@ func (p *pp) SafeString(s i.SafeString)
 
 func (p *pp) SafeInt(s i.SafeInt)
   requires PI(p) && WP(p.fmt)
+  modifies p, gfisg, gfiv
+  ensures [C05,C09] gfisg
   assert [C05,C09] p.buf.gctx != 2 ==> p.buf.mode == SafeEscaped before "p.fmtInteger(uint64(s), signed, 'd')"
   ensures PI(p) && Same(p) && KW(p) && KF(p) && KE(p)
 
 func (p *pp) SafeUint(s i.SafeUint)
   requires PI(p) && WP(p.fmt)
+  modifies p, gfisg, gfiv
+  ensures [C05,C09] !gfisg && gfiv == s
   assert [C05,C09] p.buf.gctx != 2 ==> p.buf.mode == SafeEscaped before "p.fmtInteger(uint64(s), unsigned, 'd')"
   ensures PI(p) && Same(p) && KW(p) && KF(p) && KE(p)
 
